@@ -93,6 +93,22 @@ func HostileHTML(r *rand.Rand, depth int) Hostile {
 		b.WriteString(strings.Repeat("<div>", n) + "deep" + strings.Repeat("</div>", n))
 		class = "deep-div"
 		depth = 0
+	case x < 7:
+		// a few alternating tags nested hundreds of levels deep (close tags omitted to stay small)
+		sets := [][]string{{"b", "i"}, {"u", "s", "code"}, {"em", "mark"}, {"blockquote", "b"}, {"i", "a href=\"https://x.example/\"", "b"}, {"del", "ins"}}
+		set := sets[r.Intn(len(sets))]
+		n := 250 + r.Intn(450)
+		if set[0] == "blockquote" {
+			n = 40 + r.Intn(60) // block nesting has a polynomial cost of its own; keep it far from the thresholds
+		}
+		for i := 0; i < n; i++ {
+			b.WriteString("<" + set[i%len(set)] + ">")
+		}
+		for i, k := 0, 40+r.Intn(60); i < k; i++ {
+			b.WriteString(words[r.Intn(len(words))] + " ")
+		}
+		class = "alternating-nest"
+		depth = 0
 	case x < 8:
 		tags := []string{"b", "i", "u", "s", "code", "mark", "em", "strong", "del", "ins", "span"}
 		n := 10 + r.Intn(45)
